@@ -105,12 +105,22 @@ def gen_targets(rng, world, n, for_input, blanks=False):
     rects = referenced_rects(world)
     names = list(range(len(world['names'])))
     bl = blank_positions(world) if blanks and for_input else []
+    # whole rows / columns some formula reads (they always cover blanks)
+    wholes = [x for c in world['cells'] if 'f' in c for x in walk(c['f'])
+              if x[0] == 'w'] if blanks and for_input else []
     out, used = [], set()
     for _ in range(n):
         kind = rng.weighted([('cell', 6), ('name', 1.5 if names else 0),
                              ('range', 1.5 if rects else 0),
-                             ('blank', 2.5 if bl else 0)])
-        if kind == 'blank':
+                             ('blank', 2.5 if bl else 0),
+                             ('whole', 4 if wholes else 0)])
+        if kind == 'whole':
+            x = rng.pick(wholes)
+            # a range target over the part inside the window; the third item
+            # says that the id (and the value) span the sheet
+            t = ['range', ['r'] + x[1:7], x[7]]
+            pos = rect_cells(t[1])
+        elif kind == 'blank':
             p = rng.pick(bl)
             t = ['blank', p]
             pos = [tuple(p)]
@@ -290,6 +300,10 @@ def generate(seed, tier):
         from ..world import add_sparse_range
         add_sparse_range(Rng(seed, 'sparse'), world)
     add_cover_of_array(Rng(seed, 'cover'), world)
+    if sw.chance(.08):
+        # whole rows (last motif: the node records the window)
+        from ..world import add_whole_refs
+        add_whole_refs(Rng(seed, 'whole'), world)
     breakers = None
     if sw.chance(.15):
         world, breakers = gen_circular(seed, t)
@@ -370,7 +384,31 @@ def target_id(world, P, t):
         return P.rect_id(*cell_rect(world['cells'][t[1]]))
     if t[0] == 'name':
         return P.name_id(world['names'][t[1]]['b'], t[1])
+    if len(t) > 2:      # whole rows / columns
+        return P.whole_id(['w'] + t[1][1:] + [t[2]])
     return P.rect_id(*t[1][1:])
+
+
+def sheet_wide(P, t, val):
+    """Value of a whole-row / whole-column target: the window part ``val``
+    inside an otherwise blank strip."""
+    import numpy as np
+    import schedula as sh
+    arr = np.empty((len(val), len(val[0])), object)
+    for i, row in enumerate(val):
+        for j, x in enumerate(row):
+            arr[i, j] = x
+    _, b, s, r1, c1, r2, c2 = t[1]
+    row1, col1 = P.rc(b, s, r1, c1)
+    if t[2] == 'row':
+        big = np.empty((arr.shape[0], 16384), object)
+        big[:] = sh.EMPTY
+        big[:, col1 - 1:col1 - 1 + arr.shape[1]] = arr
+    else:
+        big = np.empty((1048576, arr.shape[1]), object)
+        big[:] = sh.EMPTY
+        big[row1 - 1:row1 - 1 + arr.shape[0], :] = arr
+    return big
 
 
 def lib_inputs(world, P, m, ins):
@@ -385,6 +423,10 @@ def lib_inputs(world, P, m, ins):
         # up in the solution - `calculate(inputs={"...!B3": 1})` imposes a
         # value on an empty cell, as in the README)
         d[key] = to_lib(v)
+        if t[0] == 'range' and len(t) > 2:
+            val = d[key].tolist() if hasattr(d[key], 'tolist') else d[key]
+            d[key] = sheet_wide(P, t, val if isinstance(val, list)
+                                else [[val]])
     return d, skipped
 
 
